@@ -368,6 +368,37 @@ fixedArrayFromBuffer (PyObject *obj)
         throw std::invalid_argument ("Unsupported buffer type");
     }
 
+    //  The buffer must describe exactly the memory of an ArrayT: the same
+    // element type, one row of elements per array entry, stored
+    // contiguously.  Anything else would be reinterpreted, or copied past
+    // the end of the new array.
+    using T = typename ArrayT::BaseType;
+    const char *format = view.format;
+    if (format[0] == '@' || format[0] == '<')
+        format++;
+    const char *expected = PyFormat<T>();
+    bool sameType = (format[0] != '\0' && format[1] == '\0' &&
+                     view.itemsize == FixedArrayAtomicSize<T>::value);
+    if (sameType && format[0] != expected[0])
+    {
+        //  'l' and 'q' (and 'L' / 'Q') name the same 8-byte integer here.
+        const bool longLike     = (format[0] == 'l' || format[0] == 'q');
+        const bool wantLongLike = (expected[0] == 'l' || expected[0] == 'q');
+        const bool ulongLike     = (format[0] == 'L' || format[0] == 'Q');
+        const bool wantUlongLike = (expected[0] == 'L' || expected[0] == 'Q');
+        sameType = (longLike && wantLongLike) || (ulongLike && wantUlongLike);
+    }
+    const bool sameShape =
+        view.ndim == FixedArrayDimension<T>::value && view.shape != nullptr &&
+        (view.ndim == 1 || view.shape[1] == FixedArrayWidth<T>::value) &&
+        view.len == view.shape[0] * Py_ssize_t (sizeof (T)) &&
+        PyBuffer_IsContiguous (&view, 'C');
+    if (!sameType || !sameShape)
+    {
+        PyBuffer_Release(&view);
+        throw std::invalid_argument ("Buffer element type or shape does not match the array type");
+    }
+
     ArrayT *array = new ArrayT (view.shape[0], PyImath::UNINITIALIZED);
     memcpy (reinterpret_cast<void*>(&array->direct_index(0)), view.buf, view.len);
     PyBuffer_Release(&view);
